@@ -284,6 +284,78 @@ def _admissible_job(k):
     return {"k": k, "bad": bad, "case": {"kind": kind, "nx": nx, "ny": ny, "sym": sym, "shape": shape}}
 
 
+def _multisec_job(k):
+    """Multi-section surface described by USER-SUPPLIED section meshes (each in its own local frame, so the documented
+    unification has to translate them): the documented workflow MultiSecGeometry / build_sections / unify_mesh / AeroPoint
+    run twice from the same dictionary and once from a pristine deep copy.  The user's arrays stay bit-for-bit unchanged,
+    unify_mesh is repeatable, the three Problems agree."""
+    from openaerostruct.aerodynamics.aero_groups import AeroPoint
+    from openaerostruct.geometry.geometry_group import MultiSecGeometry, build_sections
+    from openaerostruct.geometry.geometry_unification import unify_mesh
+
+    rng = np.random.default_rng(seed() * 149 + k)
+    ns = 2 + k % 3
+    nx = 2 + k % 2
+    meshes = []
+    for i in range(ns):
+        ny = int(rng.integers(2, 5))
+        span, c_out, c_in, dx = float(rng.uniform(1, 3)), float(rng.uniform(0.4, 0.8)), float(rng.uniform(0.8, 1.2)), float(rng.uniform(0, 0.5))
+        m = np.zeros((nx, ny, 3))
+        y = np.linspace(-span, 0.0, ny)
+        eta = -y / span
+        for ix, xi in enumerate(np.linspace(0.0, 1.0, nx)):
+            m[ix, :, 0] = dx * eta + xi * (c_in + (c_out - c_in) * eta)
+            m[ix, :, 1] = y
+        if k % 2:
+            m[:, :, 0] += float(rng.uniform(-1, 1))  # an arbitrary local origin
+        meshes.append(m)
+    surface = {"name": "surface", "is_multi_section": True, "num_sections": ns, "sec_name": ["sec%d" % i for i in range(ns)], "symmetry": True, "S_ref_type": "wetted", "meshes": meshes,
+               "CL0": 0.0, "CD0": 0.015, "k_lam": 0.05, "c_max_t": 0.303, "with_viscous": False, "with_wave": False, "groundplane": False}
+    pristine = copy.deepcopy(surface)
+    h0 = [_sha(m) for m in meshes]
+
+    def analyse(surf):
+        prob = om.Problem(reports=False)
+        ivc = om.IndepVarComp()
+        for n, v, u in (("v", 50.0, "m/s"), ("alpha", 5.0, "deg"), ("Mach_number", 0.3, None), ("re", 1e5, "1/m"), ("rho", 0.38, "kg/m**3")):
+            ivc.add_output(n, val=v, units=u)
+        ivc.add_output("cg", val=np.zeros(3), units="m")
+        prob.model.add_subsystem("prob_vars", ivc, promotes=["*"])
+        prob.model.add_subsystem("surface", MultiSecGeometry(surface=surf))
+        secs = build_sections(surf)
+        u1 = unify_mesh(secs)
+        u2 = unify_mesh(secs)
+        surf["mesh"] = u1
+        prob.model.add_subsystem("pt", AeroPoint(surfaces=[surf]), promotes_inputs=["v", "alpha", "Mach_number", "re", "rho", "cg"])
+        uni = "surface.surface_unification.surface_uni_mesh"
+        prob.model.connect(uni, "pt.surface.def_mesh")
+        prob.model.connect(uni, "pt.aero_states.surface_def_mesh")
+        prob.setup()
+        prob.run_model()
+        return {"CL": np.array(prob.get_val("pt.CL")), "CD": np.array(prob.get_val("pt.CD")), "CM": np.array(prob.get_val("pt.CM")), "uni": np.array(prob.get_val(uni)), "u1": u1, "u2": u2}
+
+    bad = []
+    with warnings.catch_warnings():
+        warnings.simplefilter("ignore")
+        ref = analyse(pristine)
+        runs = []
+        for rep in range(2):
+            runs.append(analyse(surface))
+            if [_sha(m) for m in meshes] != h0:
+                bad.append(("multisec:user_section_mesh_modified", {"after_problem": rep}))
+                break
+    for i, r in enumerate(runs):
+        if not np.array_equal(r["u1"], r["u2"]):
+            bad.append(("multisec:unify_mesh_not_repeatable", {"problem": i}))
+        for kk in ("CL", "CD", "CM", "uni"):
+            if not np.all(np.isfinite(r[kk])):
+                bad.append(("multisec:nonfinite", {"var": kk}))
+            elif r[kk].shape != ref[kk].shape or float(np.max(np.abs(r[kk] - ref[kk]))) > 1e-13 * max(float(np.max(np.abs(ref[kk]))), 1e-300):
+                bad.append(("multisec:not_repeatable", {"var": kk, "problem": i}))
+                break
+    return {"k": k, "bad": bad, "case": {"kind": "multisec_user_meshes", "sections": ns, "nx": nx}}
+
+
 def run(tier, only=None):
     R = Run("C20", tier, "model_checking")
     res = tlc.run("OASSetup", "OASSetup.cfg", workers=4, coverage=True)
@@ -337,6 +409,10 @@ def run(tier, only=None):
             R.violation(sig, {"history": r["h"], "pair": r["pair"], "detail": p})
     for r in check_exc(pmap(_admissible_job, range(30 if tier == "quick" else 300))):
         R.case(["admissible", r["k"]], True, sample=r["case"] if r["k"] % 13 == 0 else None, section="admissible")
+        for sig, p in r["bad"]:
+            R.violation(sig, {"k": r["k"], "case": r["case"], "detail": p})
+    for r in check_exc(pmap(_multisec_job, range(12 if tier == "quick" else 120))):
+        R.case(["multisec", r["k"]], True, sample=r["case"] if r["k"] % 5 == 0 else None, section="multisection")
         for sig, p in r["bad"]:
             R.violation(sig, {"k": r["k"], "case": r["case"], "detail": p})
     R.assume("malformed variants: every subset of at most two defects of the documented dictionaries (mesh dict, surface dict per model kind, multi-section lists)", "two Problems: an aerodynamic (2 surfaces, rotational) and an aerostructural (tube) one, compared bit for bit (<= 1e-14) with the same Problem run alone")
